@@ -180,6 +180,10 @@ def install(invalid_value_stub=True):
         install_invalid_value_stub()
     install_scalar_dict_guard()
 
+    # X8: no short-circuiting: a called function that carries a contract is always executed, never replaced by "some
+    # value satisfying its postcondition" (harness functions carry `post: _`; see also runner._excluding_wrapper).
+    _core.ShortCircuitingContext.make_interceptor = lambda self, original: original
+
 
 def has_instance_dict(obj):
     """hasattr(obj, '__dict__') as the native value answers it: a CrossHair proxy (symbolic scalar, ShellMutableSet,
